@@ -1,6 +1,7 @@
 import Tickit.Model.LifeOps
 import Tickit.Proof.LifeCopy
 import Tickit.Proof.LifeStep
+import Tickit.Proof.LifePens
 import Tickit.Gen.Life
 /-
   Property C08 — no API history touches freed or foreign memory, and everything is released.
@@ -24,7 +25,7 @@ def extracted : Cfg :=
 /-- The source tree contains the repairs the theorems below need (close purges the queue and forgets the drag
     source, destroy closes a child before dropping its reference, `get_span_text` terminates only with room).
     A tree that loses one of them breaks this obligation at build time. -/
-theorem extracted_repaired : Repaired extracted := ⟨by decide, by decide, by decide, by decide⟩
+theorem extracted_repaired : Repaired extracted := ⟨by decide, by decide, by decide, by decide, by decide⟩
 
 /-! ## bounded_copy — copy-out calls never write beyond the length given -/
 
@@ -75,8 +76,10 @@ example : (displayText true 3 [[0x41], [0x42]]).stores = [(0, 0x41), (1, 0), (1,
 
 /-! ## no_ub — no history touches freed memory, dereferences NULL or aborts -/
 
-/-- A history of operations that run no event handler, possibly finished by `end`. -/
-def PlainHistory (ops : List Op) : Prop := ∀ op ∈ ops, op.plain = true ∨ op = .«end»
+/-- A history of operations that deliver no key or mouse event, possibly finished by `end`: the handler-free
+    operations, and the pen operations whose `TICKIT_PEN_ON_CHANGE` handlers take and drop references to pens
+    (`Op.penEvent`: set_colour_attr, set_colour_attr_desc, copy, copy_attr, bind, unbind). -/
+def PlainHistory (ops : List Op) : Prop := ∀ op ∈ ops, op.plain = true ∨ op.penEvent = true ∨ op = .«end»
 
 /-- **no_ub** (after the repairs): for every state satisfying the invariant and every history of window /
     pen / string / buffer / terminal operations in any order — references taken and dropped, windows closed or
@@ -90,8 +93,11 @@ theorem no_ub : ∀ (ops : List Op) (st : St), SInv st → PlainHistory ops →
   | [], st, inv, _ => ⟨st, rfl, inv⟩
   | op :: rest, st, inv, h => by
     have hrest : PlainHistory rest := fun o ho => h o (by simp [ho])
-    rcases h op (by simp) with hp | he
+    rcases h op (by simp) with hp | hpe | he
     · obtain ⟨st1, r, hs, inv1⟩ := step_plain_ok extracted_repaired inv op hp
+      obtain ⟨st2, hr, inv2⟩ := no_ub rest st1 inv1 hrest
+      exact ⟨st2, by unfold runOps; rw [hs]; exact hr, inv2⟩
+    · obtain ⟨st1, r, hs, inv1⟩ := step_pen_ok extracted_repaired inv op hpe
       obtain ⟨st2, hr, inv2⟩ := no_ub rest st1 inv1 hrest
       exact ⟨st2, by unfold runOps; rw [hs]; exact hr, inv2⟩
     · subst he
@@ -126,7 +132,26 @@ example : (runOps extracted {} [.newTerm 10 20 false, .win 0 ⟨1, 1, 5, 10⟩ 0
     .act (.restack .raise 3), .act (.close 1), .act (.unref 3), .act .flush, .act (.unref 2), .act (.unref 1), .«end»]).isOk
     = true := by decide +kernel
 
+/-- Non-vacuity for the pen operations: a change handler that drops the application's only reference to the pen
+    while the pen is being set (the pen lives until `emit_change` lets go of it), a description that is applied inside
+    freeze/thaw, a copy whose destination's handler drops the source. -/
+example : PlainHistory [.pen, .pbind 0 [.unref 0], .pset 0 3, .«end»] := by
+  intro op hop; simp at hop; rcases hop with rfl | rfl | rfl | rfl <;> simp [Op.plain, Op.penEvent]
+
+example : (runOps extracted {} [.newTerm 6 12 false, .pen, .pbind 0 [.unref 0], .pset 0 3, .«end»]).isOk = true := by decide +kernel
+
+example : (runOps extracted {} [.newTerm 6 12 false, .pen, .pen, .pset 1 3, .pbind 0 [.unref 1], .pcopy 0 1 true, .«end»]).isOk
+    = true := by decide +kernel
+
 /-! ### the defects, as theorems about the model of the unrepaired tree -/
+
+/-- (0) `tickit_pen_copy` went on reading the source after the destination's change handlers had run: a handler that
+    drops the last reference to the source frees it under the loop. -/
+theorem pen_copy_src_dropped_counterexample :
+    (runOps { Cfg.fixed with penCopyKeepsSrc := false } {}
+      [.newTerm 6 12 false, .pen, .pen, .pset 1 3, .pbind 0 [.unref 1], .pcopy 0 1 true]).isOk = false := by
+  decide +kernel
+
 
 /-- (1) `tickit_window_destroy` wrote `child->parent = NULL` into the child its own unref had just freed:
     root > 1 > 2, `unref 1`. -/
